@@ -266,9 +266,16 @@ def emit : Handler := fun req => do
   let rustToSchema : List (String × String) := schemasJ0.map fun (k, _) => (rustName0 k, k)
   let compTexts : List (String × String) := schemasJ0.map fun (k, v) => (k, v.compress)
   let fps0 := unionFps (schemasJ0.map fun (k, v) => (k.toList, sOf v))
-  let ownSelf (dn : String) : Option (List GName × List GName) := (rustToSchema.lookup dn).bind fun k =>
+  -- the schema a holder type is made from: its own name, or `<X>Base` = the member struct of the discriminated base `X`
+  let holderSchema (dn : String) : Option String := match rustToSchema.lookup dn with
+    | some k => some k
+    | none => if dn.endsWith "Base" then
+        (rustToSchema.lookup (dn.dropEnd 4).toString).bind fun k =>
+          if ((schemasJ0.lookup k).map fun v => (v.getObjVal? "discriminator").toOption.isSome) == some true then some k else none
+      else none
+  let ownSelf (dn : String) : Option (List GName × List GName) := (holderSchema dn).bind fun k =>
     (schemasJ0.lookup k).map fun v => refsAndCopies fps0 compTexts true v
-  let ownOf (dn : String) : Option (List GName × List GName) := (rustToSchema.lookup dn).map fun k =>
+  let ownOf (dn : String) : Option (List GName × List GName) := (holderSchema dn).map fun k =>
     (withParents schemasJ0 k).foldl (fun acc n => match schemasJ0.lookup n with
       | some v => let r := refsAndCopies fps0 compTexts true v; (acc.1 ++ r.1, acc.2 ++ r.2)
       | none => acc) ([], [])
